@@ -77,6 +77,8 @@ func (e *env) onSvc(f func()) {
 
 func frontName(f int) string {
 	switch f {
+	case 0:
+		return ""
 	case 1:
 		return "gate-1"
 	case 2:
@@ -296,6 +298,24 @@ func (e *env) exec(op string) string {
 		return "bad-op"
 	}
 	uid := int64(hx.KVInt(ws, "u"))
+	switch ws[0] {
+	case "tick", "adv":
+	case "login", "closed", "logined", "reonline", "logoutreq", "logoutdone", "abnormal", "swbegin", "swend", "offreply":
+		if uid < 1 || uid > nAccts {
+			return "bad-op"
+		}
+	default:
+		return "bad-op"
+	}
+	switch ws[0] {
+	case "closed", "logined", "offreply":
+		// the map-order dependent case (two parked logins expired at one scan) is not driven
+		skip := false
+		e.onSvc(func() { skip = common.NowMs() >= e.mgr.VerifNextCheck() && e.expiredTasks() >= 2 })
+		if skip {
+			return "nondet"
+		}
+	}
 	e.mu.Lock()
 	e.kicks, e.offs, e.acks = nil, nil, nil
 	e.mu.Unlock()
@@ -319,9 +339,12 @@ func (e *env) exec(op string) string {
 	}
 	switch ws[0] {
 	case "login":
-		if uid < 1 || uid > nAccts {
-			return "bad-op"
+		for _, key := range []string{"f", "n", "k"} {
+			if _, ok := hx.KV(ws, key); !ok {
+				return "bad-op"
+			}
 		}
+		f, n, k := hx.KVInt(ws, "f"), uint32(hx.KVInt(ws, "n")), hx.KVInt(ws, "k") == 1
 		e.seq[uid]++
 		id := fmt.Sprintf("%d.%d", uid, e.seq[uid])
 		cn := e.caseNo
@@ -332,12 +355,11 @@ func (e *env) exec(op string) string {
 				return
 			}
 			if a, ok := r.(*mymsg.CenterReqLoginAck); ok && err == nil {
-				e.acks = append(e.acks, id+":"+codeName(a))
+				e.acks = append(e.acks, fmt.Sprintf("%s:%d:%s", id, n, codeName(a)))
 			} else {
-				e.acks = append(e.acks, id+":err")
+				e.acks = append(e.acks, fmt.Sprintf("%s:%d:err", id, n))
 			}
 		}
-		f, n, k := hx.KVInt(ws, "f"), uint32(hx.KVInt(ws, "n")), hx.KVInt(ws, "k") == 1
 		call(func() { e.mgr.ReqLogin(uid, frontName(f), n, k, cb) })
 	case "closed":
 		call(func() { e.mgr.OnClientSessionClosed(uid) })
@@ -361,12 +383,6 @@ func (e *env) exec(op string) string {
 		ok := hx.KVInt(ws, "ok") == 1
 		call(func() { ret = b2s(e.mgr.OnSwitchLineEnd(uid, ok)) })
 	case "offreply":
-		// the map-order dependent case (two parked logins expired at one scan) is not driven
-		skip := false
-		e.onSvc(func() { skip = common.NowMs() >= e.mgr.VerifNextCheck() && e.expiredTasks() >= 2 })
-		if skip {
-			return "nondet"
-		}
 		var p *pendingOff
 		e.mu.Lock()
 		for i, q := range e.pending {
@@ -390,6 +406,9 @@ func (e *env) exec(op string) string {
 	case "tick":
 		call(func() { e.mgr.VerifUpdate() })
 	case "adv":
+		if _, ok := hx.KV(ws, "ms"); !ok {
+			return "bad-op"
+		}
 		ms := int64(hx.KVInt(ws, "ms"))
 		now := common.NowMs()
 		e.mu.Lock()
@@ -427,11 +446,13 @@ func (e *env) exec(op string) string {
 var limits = []int{3000, 30000, 120000, 180000, 300000, 1800000}
 
 type gen struct {
-	h     *hx.T
-	now   int64
-	mark  []int64 // times at which something with a time limit started
-	uids  int
-	conns [][2]int
+	h        *hx.T
+	now      int64
+	mark     []int64 // times at which something with a time limit started
+	uids     int
+	conns    [][2]int
+	last     string // the implementation's last observation
+	afterAdv bool   // the previous op was a clock advance: probe the limits now
 }
 
 func (g *gen) uid() int {
@@ -455,17 +476,54 @@ func (g *gen) conn() (int, int) {
 	return c[0], c[1]
 }
 
-// advance: mostly to just before / exactly at / just after a limit counted from a marked instant
+// deadlines the implementation currently shows (lock limits, state limits, expiry of a parked
+// login, next expiry scan), relative to the case start
+func (g *gen) deadlines() []int64 {
+	var ds []int64
+	for _, w := range hx.Words(g.last) {
+		i := strings.IndexByte(w, '@')
+		if i < 0 || !(strings.HasPrefix(w, "lk=") || strings.HasPrefix(w, "st=") || strings.HasPrefix(w, "tk=")) {
+			if strings.HasPrefix(w, "nc=") {
+				var t int64
+				fmt.Sscanf(w[3:], "%d", &t)
+				if t > 0 {
+					ds = append(ds, t)
+				}
+			}
+			continue
+		}
+		var t int64
+		fmt.Sscanf(w[i+1:], "%d", &t)
+		if strings.HasPrefix(w, "tk=") {
+			t += 30000
+		}
+		if t > 0 {
+			ds = append(ds, t)
+		}
+	}
+	return ds
+}
+
+// advance: mostly to just before / exactly at / just after a time limit the implementation shows,
+// else relative to an instant at which something with a limit started
 func (g *gen) adv() string {
 	r := g.h.R
 	var ms int64
-	switch r.Intn(10) {
-	case 0:
+	ds := g.deadlines()
+	switch x := r.Intn(10); {
+	case x == 0:
 		ms = int64(1 + r.Intn(5000))
 		g.h.Count("adv.small")
-	case 1:
+	case x == 1:
 		ms = int64(limits[r.Intn(len(limits))])
 		g.h.Count("adv.limit")
+	case x < 7 && len(ds) > 0:
+		target := ds[r.Intn(len(ds))] + int64(r.Intn(3)) - 1
+		ms = target - g.now
+		if ms <= 0 {
+			ms = int64(1 + r.Intn(1000))
+		}
+		g.h.Count("adv.shown-deadline")
 	default:
 		if len(g.mark) == 0 {
 			ms = int64(limits[r.Intn(len(limits))]) + int64(r.Intn(3)) - 1
@@ -479,47 +537,106 @@ func (g *gen) adv() string {
 		}
 		g.h.Count("adv.edge")
 	}
+	g.afterAdv = true
 	return fmt.Sprintf("adv ms=%d", ms)
 }
 
+// op: weighted by what the implementation last showed for the chosen account, so that the
+// protocol's own sequences (login, logined, second login parks, closed, offline reply, reconnect,
+// re-online, logout request, logout done, tick; line switch begin/end) are common, with every
+// other operation still possible in every state.
 func (g *gen) op() string {
 	r := g.h.R
 	u := g.uid()
-	switch x := r.Intn(100); {
-	case x < 22:
+	acct := ""
+	if parts := strings.Split(g.last, " | "); len(parts) > u {
+		acct = parts[u]
+	}
+	has := func(x string) bool { return strings.Contains(acct, x) }
+	w := map[string]int{"login": 6, "closed": 3, "logined": 3, "reonline": 2, "logoutreq": 3, "logoutdone": 2, "abnormal": 1,
+		"swbegin": 2, "swend": 2, "offreply": 1, "tick": 4, "adv": 6}
+	switch {
+	case acct == "" || acct == "-" || has("st=- "):
+		w["login"] += 20
+	case has("st=Logining"):
+		w["logined"] += 18
+		w["closed"] += 4
+	case has("st=Logined"):
+		if has("c=0:0") {
+			w["login"] += 12
+			w["logoutreq"] += 5
+		} else {
+			w["login"] += 10
+			w["closed"] += 8
+			w["swbegin"] += 5
+			w["logoutreq"] += 3
+		}
+	case has("st=SwitchLine"):
+		w["swend"] += 16
+	case has("st=Logouting"):
+		w["logoutdone"] += 14
+	case has("st=WaitRemove"):
+		w["tick"] += 16
+		w["logined"] += 2
+		w["logoutreq"] += 2
+	}
+	if has("lk=Reonline") {
+		w["reonline"] += 12
+	}
+	if has("tk=") && !has("tk=-") {
+		w["closed"] += 10
+		w["login"] += 4
+		w["adv"] += 3
+	}
+	if !has("po=0") && has("po=") {
+		w["offreply"] += 16
+	}
+	if g.afterAdv {
+		g.afterAdv = false
+		w["logoutreq"] += 10
+		w["swbegin"] += 6
+		w["login"] += 8
+		w["tick"] += 12
+		w["adv"] = 1
+	}
+	keys := []string{"login", "closed", "logined", "reonline", "logoutreq", "logoutdone", "abnormal", "swbegin", "swend", "offreply", "tick", "adv"}
+	total := 0
+	for _, k := range keys {
+		total += w[k]
+	}
+	x := r.Intn(total)
+	kind := ""
+	for _, k := range keys {
+		if x < w[k] {
+			kind = k
+			break
+		}
+		x -= w[k]
+	}
+	switch kind {
+	case "login":
 		f, n := g.conn()
 		k := 1
 		if r.Intn(4) == 0 {
 			k = 0
 		}
 		return fmt.Sprintf("login u=%d f=%d n=%d k=%d", u, f, n, k)
-	case x < 32:
-		return fmt.Sprintf("closed u=%d", u)
-	case x < 42:
+	case "logined":
 		lg := 1
 		if r.Intn(12) == 0 {
 			lg = 0
 		}
 		return fmt.Sprintf("logined u=%d lg=%d", u, lg)
-	case x < 47:
-		return fmt.Sprintf("reonline u=%d", u)
-	case x < 53:
-		return fmt.Sprintf("logoutreq u=%d", u)
-	case x < 58:
-		return fmt.Sprintf("logoutdone u=%d", u)
-	case x < 61:
-		return fmt.Sprintf("abnormal u=%d", u)
-	case x < 66:
-		return fmt.Sprintf("swbegin u=%d", u)
-	case x < 70:
+	case "swend":
 		return fmt.Sprintf("swend u=%d ok=%d", u, r.Intn(2))
-	case x < 80:
+	case "offreply":
 		return fmt.Sprintf("offreply u=%d ok=%d", u, hx.B2i(r.Intn(5) != 0))
-	case x < 88:
+	case "tick":
 		return "tick"
-	default:
+	case "adv":
 		return g.adv()
 	}
+	return fmt.Sprintf("%s u=%d", kind, u)
 }
 
 func opKind(op string) string {
@@ -532,6 +649,10 @@ func opKind(op string) string {
 // note what the generator reached (from the implementation's observation)
 func (g *gen) account(op, obs string) {
 	h := g.h
+	if strings.HasPrefix(obs, "ret=") {
+		g.reach(op, g.last, obs)
+		g.last = obs
+	}
 	h.Count("op." + opKind(op))
 	if strings.HasPrefix(op, "adv") && obs != "refused" {
 		g.now += int64(hx.KVInt(hx.Words(op), "ms"))
@@ -540,7 +661,7 @@ func (g *gen) account(op, obs string) {
 		ws := hx.Words(obs)
 		if a, _ := hx.KV(ws, "acks"); a != "" {
 			for _, one := range strings.Split(a, ",") {
-				if i := strings.IndexByte(one, ':'); i >= 0 {
+				if i := strings.LastIndexByte(one, ':'); i >= 0 {
 					c := one[i+1:]
 					if strings.HasPrefix(c, "re") {
 						c = "reconnect"
@@ -579,9 +700,48 @@ func (g *gen) account(op, obs string) {
 	}
 }
 
+func field(acct, key string) string {
+	v, _ := hx.KV(hx.Words(acct), key)
+	return v
+}
+
+// reach: which time-limit dependent branches the history went through
+func (g *gen) reach(op, prev, cur string) {
+	pp, cp := strings.Split(prev, " | "), strings.Split(cur, " | ")
+	for u := 1; u <= nAccts && u < len(pp) && u < len(cp); u++ {
+		a, b := pp[u], cp[u]
+		la, lb := field(a, "lk"), field(b, "lk")
+		if la != "" && la != "-" && lb != "" && lb != "-" && la != lb && opKind(op) != "tick" {
+			g.h.Count("reach.lock-taken-over-after-expiry")
+		}
+		sa := field(a, "st")
+		if opKind(op) == "tick" && (b == "-" || field(b, "st") == "-") {
+			switch {
+			case strings.HasPrefix(sa, "Logining"):
+				g.h.Count("reach.tick-expired-Logining")
+			case strings.HasPrefix(sa, "Logouting"):
+				g.h.Count("reach.tick-expired-Logouting")
+			case strings.HasPrefix(sa, "WaitRemove"):
+				g.h.Count("reach.tick-removed-WaitRemove")
+			}
+		}
+		if opKind(op) == "tick" && b != "-" && field(b, "st") != "-" && (strings.HasPrefix(sa, "Logining") || strings.HasPrefix(sa, "Logouting")) {
+			g.h.Count("reach.tick-kept-unexpired")
+		}
+		ta, tb := field(a, "tk"), field(b, "tk")
+		if ta != "" && ta != "-" && tb == "-" && !strings.Contains(cur, "acks="+fmt.Sprint(u)+".") {
+			g.h.Count("reach.parked-login-dropped-unanswered")
+		}
+		if strings.HasPrefix(sa, "WaitRemove") && !strings.HasPrefix(field(b, "st"), "WaitRemove") && b != "-" && field(b, "st") != "-" {
+			g.h.Count("reach.lingering-record-revived")
+		}
+	}
+}
+
 func (g *gen) newCase() {
 	r := g.h.R
 	g.now = 0
+	g.last = ""
 	g.mark = g.mark[:0]
 	g.uids = 1
 	if r.Intn(3) == 0 {
@@ -670,6 +830,112 @@ func TestExhaustive(t *testing.T) {
 			}
 		}
 		h.Stats[fmt.Sprintf("exhaustive.sequences.depth%d.alphabet%d", depth, len(exhAlphabet))] = total
+	})
+}
+
+// stateKey: everything the future behaviour of the centre can depend on, with times taken
+// relative to the current instant and limits that have already passed collapsed (a passed limit
+// stays passed).  Used only to prune the reachability search below, never compared with the model.
+func (e *env) stateKey() string {
+	var sb strings.Builder
+	e.onSvc(func() {
+		e.mu.Lock()
+		defer e.mu.Unlock()
+		now := common.NowMs()
+		fut := func(t int64) string {
+			if t <= now {
+				return "past"
+			}
+			return fmt.Sprint(t - now)
+		}
+		for u := int64(1); u <= nAccts; u++ {
+			p := e.mgr.VerifPlayer(u)
+			t := e.mgr.VerifTask(u)
+			if p.Present {
+				st := "0"
+				if p.StTimeout != 0 {
+					st = fut(p.StTimeout)
+				}
+				lk := "-"
+				if p.Lock {
+					lk = fmt.Sprintf("%d@%s", p.Reason, fut(p.LkTimeout))
+				}
+				fmt.Fprintf(&sb, "P%d:%s:%s:%s:%d:%s;", p.State, st, lk, p.Front, p.Net, p.Logic)
+			} else {
+				sb.WriteString("P-;")
+			}
+			if t.Present {
+				fmt.Fprintf(&sb, "T%s:%d:%s;", t.Front, t.Net, fut(t.Start+30*1000+1))
+			} else {
+				sb.WriteString("T-;")
+			}
+			for _, q := range e.pending {
+				if q.uid == u {
+					fmt.Fprintf(&sb, "O%d;", now-q.sent)
+				}
+			}
+			sb.WriteString("|")
+		}
+		sb.WriteString("N" + fut(e.mgr.VerifNextCheck()))
+	})
+	return sb.String()
+}
+
+var reachAlphabet = []string{
+	"login u=1 f=1 n=1 k=1", "login u=1 f=2 n=2 k=1", "login u=1 f=2 n=2 k=0", "closed u=1", "logined u=1 lg=1", "logined u=1 lg=0",
+	"reonline u=1", "logoutreq u=1", "logoutdone u=1", "abnormal u=1", "swbegin u=1", "swend u=1 ok=1", "offreply u=1 ok=1",
+	"tick", "adv ms=1", "adv ms=2999", "adv ms=30000", "adv ms=119999", "adv ms=179999", "adv ms=299999", "adv ms=1799999",
+}
+
+// TestReachable: breadth-first over the states of 1 account x 2 connections; every op of the
+// alphabet is tried from every distinct state found (one representative history per state), down
+// to VERIF_DEPTH or until VERIF_MAXOPS op lines have been produced.  Every executed history is
+// part of the trace, i.e. compared with the model and checked by the property monitor.
+func TestReachable(t *testing.T) {
+	bubble(t, func(e *env, h *hx.T) {
+		depth := hx.EnvInt("VERIF_DEPTH", 6)
+		maxOps := hx.EnvInt("VERIF_MAXOPS", 300000)
+		seen := map[string]bool{}
+		h.Emit("reset", e.exec("reset"))
+		seen[e.stateKey()] = true
+		frontier := [][]string{{}}
+		done := 0
+		for d := 1; d <= depth && len(frontier) > 0; d++ {
+			var next [][]string
+			complete := true
+			for _, seq := range frontier {
+				if h.N > maxOps {
+					complete = false
+					break
+				}
+				for _, a := range reachAlphabet {
+					h.Emit("reset", e.exec("reset"))
+					for _, op := range seq {
+						h.Emit(op, e.exec(op))
+					}
+					obs := e.exec(a)
+					h.Emit(a, obs)
+					if !strings.HasPrefix(obs, "ret=") {
+						continue
+					}
+					k := e.stateKey()
+					if !seen[k] {
+						seen[k] = true
+						ns := make([]string, 0, len(seq)+1)
+						ns = append(append(ns, seq...), a)
+						next = append(next, ns)
+					}
+				}
+			}
+			if !complete {
+				break
+			}
+			done = d
+			h.Stats[fmt.Sprintf("reachable.new-states.depth%d", d)] = len(next)
+			frontier = next
+		}
+		h.Stats["reachable.depth-completed"] = done
+		h.Stats["reachable.distinct-states"] = len(seen)
 	})
 }
 
